@@ -8,12 +8,12 @@ Open Scope Z_scope.
 
 (* With the skip ratio the source declares NOW (maxSkipRatio, in 1/1000), a backup none of whose
    inventoried files could be read never reports success - for every tree and fault set. *)
-Theorem C13_deployed_all_unreadable_fails : forall F id src bk,
+Theorem C13_deployed_all_unreadable_fails : forall F O env id src bk,
   backup_files src <> [] ->
   (forall p, In p (backup_files src) -> bf_read_src F p = true) ->
-  fst (fst (create_backup skip_permille F id src bk)) = BFailed.
+  fst (fst (create_backup skip_permille F O env id src bk)) = BFailed.
 Proof.
-  intros F id src bk Hne Hall. apply all_unreadable_fails; [|exact Hne|exact Hall].
+  intros F O env id src bk Hne Hall. apply all_unreadable_fails; [|exact Hne|exact Hall].
   unfold skip_permille. lia.
 Qed.
 Print Assumptions C13_deployed_all_unreadable_fails.
